@@ -306,3 +306,42 @@ func Read(t *tree.Tree) (*ref.Node, error) {
 	}
 	return m, nil
 }
+
+// EdgePair associates a gotree edge with the model node below it.
+type EdgePair struct {
+	E *tree.Edge
+	M *ref.Node
+}
+
+// PairEdges walks the gotree tree and a model of the same shape (e.g. the reference
+// reading of its text) in parallel, using only Root/Neigh/Edges.
+func PairEdges(t *tree.Tree, m *ref.Node) ([]EdgePair, error) {
+	var out []EdgePair
+	var rec func(n, from *tree.Node, mn *ref.Node) error
+	rec = func(n, from *tree.Node, mn *ref.Node) error {
+		k := 0
+		skipped := false
+		for i, c := range n.Neigh() {
+			if c == from && !skipped {
+				skipped = true
+				continue
+			}
+			if k >= len(mn.Ch) {
+				return fmt.Errorf("shape mismatch at %q", n.Name())
+			}
+			out = append(out, EdgePair{n.Edges()[i], mn.Ch[k]})
+			if err := rec(c, n, mn.Ch[k]); err != nil {
+				return err
+			}
+			k++
+		}
+		if k != len(mn.Ch) {
+			return fmt.Errorf("shape mismatch at %q", n.Name())
+		}
+		return nil
+	}
+	if err := rec(t.Root(), nil, m); err != nil {
+		return nil, err
+	}
+	return out, nil
+}
